@@ -202,9 +202,28 @@ let gen_case r k =
     let c, _ = gen_control r in
     let c = { c with c_crc = crc32c (crc_covered c) } in
     let v = enc_control c in
-    let off = rint r 288 in
-    let v = set_byte v off (fun b -> b lxor (1 lsl (rint r 8))) in
-    run_parse ~tag:"bitflip_covered" ~s:"-" v []
+    if rbool r then begin
+      let off = rint r 288 in
+      let v = set_byte v off (fun b -> b lxor (1 lsl (rint r 8))) in
+      run_parse ~tag:"bitflip_covered" ~s:"-" v []
+    end else begin
+      (* the intact image is parsed first, then a copy whose identifier, length and stored CRC are the same but whose body
+         differs: the second answer must come from the second image (seeded change C16-18: a memo keyed by those three) *)
+      let pad, _ = gen_pad r in
+      if rbool r then begin
+        let off = 8 + rint r 280 in
+        let v2 = set_byte v off (fun b -> b lxor (1 lsl (rint r 8))) in
+        let m = c_parse (parseControlFile { vis = v2 @ pad; tail = [] }) in
+        emit ~fn:"ParseControlFileAfter" ~tag:"after_intact_twin_bitflip" ~s:"-" ~m [ hexf (v @ pad); hexf (v2 @ pad) ]
+      end else begin
+        (* another cluster's fields under the first one's identifier and CRC word: the expected answer is known *)
+        let c2, _ = gen_control r in
+        let c2 = { c2 with c_pg12 = c.c_pg12; c_sysid = c.c_sysid; c_crc = c.c_crc } in
+        let v2 = enc_control c2 in
+        let m = c_parse (parseControlFile { vis = v2 @ pad; tail = [] }) in
+        emit ~fn:"ParseControlFileAfter" ~tag:"after_intact_twin_fields" ~s:(c_control (expected c2)) ~m [ hexf (v @ pad); hexf (v2 @ pad) ]
+      end
+    end
   | 10 -> (* D49 class: settings the former value heuristic could not locate *)
     let c, _ = gen_control r in
     let c = { c with c_maxconn = zi (pick r [| 10001; 50000; 262143 |]);
